@@ -2,7 +2,8 @@
 C18 — decomposition results do not depend on how the problem is presented.
 
 Only property theorems and non-vacuity examples live here; the models are in
-`Alg/Presentation.lean` (import-free), the proofs in `Lemmas/Presentation.lean`.
+`Alg/Presentation.lean` (import-free) and, for the whole CP-ALS run, `Alg/CpAls.lean` (the model of
+C09); the proofs in `Lemmas/Presentation.lean` and `Lemmas/PresentationRun.lean`.
 All statements are about exact arithmetic (an arbitrary field / ordered field / ℝ); "up to
 rounding" in the property is what the paired runs of the harness measure on the implementation.
 
@@ -22,17 +23,24 @@ What is proved for all inputs, and what is not:
 * seeds: `C18_seed_deterministic`.
 * scaling: HOSVD in full at the matrix level (`C18_scale_hosvd`, `C18_scale_hosvd_rank`), one
   Tucker-ALS mode update (`C18_scale_tucker_step`), one CP-ALS mode update
-  (`C18_scale_als_step`), the reported fits (`C18_scale_fit`).  Whole-run scale equivariance of
-  CP-ALS is `C18_scale_cpals_run_partial`: only the simulation step (factors equal up to an
-  invertible column scaling ⇒ the next update is again so and the model tensor scales by c) is
-  proved, not the induction over a run; for CP-APR and GCP nothing is claimed (their losses are
-  not scale-equivariant).
+  (`C18_scale_als_step`, and `C18_scale_als_step_colscaled` when the other factors are only known
+  up to an invertible column scaling), the reported fits (`C18_scale_fit`).  Whole-run scale
+  equivariance of CP-ALS is proved for the branch-by-branch model of `cp_als.py` used by C09
+  (`Alg/CpAls.lean`, scalar formulas generated from the source): `C18_scale_cpals_run`, built from
+  `C18_scale_cpals_mode_update`, `C18_scale_cpals_pass`, `C18_scale_cpals_sweeps` (simulation
+  relation `CpAls.Sim`: factors equal up to positive per-column scalings whose product with the
+  weights accounts for `c`) and `C18_scale_cpals_cleanup` (`arrange`/`fixsigns` do not change the
+  array).  Hypotheses: exact arithmetic, both runs succeed, `norm() ≠ 0`, and every coefficient
+  matrix met by the unscaled run is zero or non-singular (automatic for rank one,
+  `C18_scale_cpals_rank_one`).  For CP-APR and GCP nothing is claimed (their losses are not
+  scale-equivariant).
 * relabelling: `C18_relabel_step`, `C18_relabel_sweep` for any update rule whose per-mode query
   is relabelling-consistent, `C18_relabel_als_query` shows CP-ALS's query is, given the interface
   law `mttkrp (permute X π) (permute U π) k = mttkrp X U (π k)`, and `C18_relabel_mttkrp_spec`
   proves that law for the specification-level `mttkrp`.
 -/
 import PyttbModel.Lemmas.Presentation
+import PyttbModel.Lemmas.PresentationRun
 namespace Pyttb
 open Pres
 
@@ -188,16 +196,14 @@ theorem C18_scale_als_zero_guard {r : Type} {𝕜 : Type} [Field 𝕜] (Y : Matr
     (c * c) • Y = 0 ↔ Y = 0 :=
   als_zero_guard_scale Y c hc
 
-/-- PARTIAL (whole-run scale equivariance of CP-ALS).  After the first sweep CP-ALS normalises
-columns by `max(max|·|, 1)`, which is not scale-equivariant, so the factor matrices of the two
-runs differ by an invertible column scaling `D`.  What is proved is the simulation step: if the
-other factors enter as `Z D` instead of `Z`, the update for the data scaled by `c` is
-`c • A⋆ D⁻ᵀ` and the model tensor is again exactly `c` times the unscaled one.  NOT proved: the
-induction over modes and outer iterations (it needs the Khatri-Rao structure of `Z` to turn the
-per-factor scalings into `D`), the equality of the stop decisions, and anything for CP-APR and
-GCP (whose losses are not scale-equivariant).  The harness checks the whole-run statement on
-the implementation with `stoptol = 0`. -/
-theorem C18_scale_cpals_run_partial (X : Matrix m n 𝕜) (Z : Matrix n r 𝕜) (A : Matrix m r 𝕜)
+/-- The mode update when the other factors are known only up to an invertible column scaling `D`
+(which is what happens in a whole run: after the first sweep CP-ALS normalises columns by
+`max(max|·|, 1)`, which is not scale-equivariant, so the factor matrices of the run on `c • X`
+differ from those of the run on `X` by a column scaling).  If the other factors enter as `Z D`
+instead of `Z`, the update for the data scaled by `c` is `c • A⋆ D⁻ᵀ` and the model tensor is again
+exactly `c` times the unscaled one.  (Matrix-level counterpart of `C18_scale_cpals_mode_update`;
+the whole run is `C18_scale_cpals_run`.) -/
+theorem C18_scale_als_step_colscaled (X : Matrix m n 𝕜) (Z : Matrix n r 𝕜) (A : Matrix m r 𝕜)
     (D E : Matrix r r 𝕜) (c : 𝕜) (hDE : D * E = 1) (h : A * (Zᵀ * Z) = X * Z) :
     (c • (A * Eᵀ)) * ((Z * D)ᵀ * (Z * D)) = (c • X) * (Z * D) ∧
     (c • (A * Eᵀ)) * (Z * D)ᵀ = c • (A * Zᵀ) :=
@@ -251,6 +257,137 @@ theorem C18_scale_tucker_step (X : Matrix m n ℝ) (K : Matrix n r ℝ) (U : Mat
   · rw [h1]; exact core_scale U (X * K) c
 
 end scale
+
+
+/-! ### scaling the data by c > 0: a whole CP-ALS run
+
+The model is the one of C09 (`Alg/CpAls.lean`: `modeUpdate`, `iterStep`, `loopFrom`, `finish`,
+`run`, branch by branch as in `cp_als.py`, scalar formulas generated from the source).  `D` is the
+data object of the first run and denotes the array `X` (`DataLaws D X`, the interface laws of C02);
+`D'` is the data object of the second run and denotes `c • X`, has the same shape, and answers
+`norm()` with `c · D.norm`.  Both runs use the same services (`solve` with its contract
+`A · Y = B`), the same lawful number system, the same options and the same start.
+
+`CpAls.Sim c shape rank st st'` — the simulation relation — says: the factor matrices of `st'`
+are those of `st` up to positive per-column scalings `d m r` (mode `m`, component `r`) with
+`weights'[r] · ∏ₘ d m r = c · weights[r]`; the stored Gram matrices are those of the factors;
+`fit' = fit`, `normresidual' = c · normresidual`, same pass counter, same stop flag.
+`CpAls.RegularY o Y rank` says: `Y` passes the all-zero guard or is non-singular
+(`v · Y = 0 → v = 0`); `RegularSweep` / `RegularLoop` / `RegularRun` say this of every coefficient
+matrix the FIRST run meets in a sweep / from some pass on / in the whole run. -/
+
+section cpals_run
+open CpAls
+variable {α : Type} [Field α] [LinearOrder α] [IsStrictOrderedRing α]
+
+/-- One mode update (`Unew = mttkrp; Y = ∗ UtU; solve (guarded); column scale; store`) maps
+related states to related states.  The column scale may be the 2-norm (pass 0) or
+`max(max|·|, 1)` (later passes): in both cases the new factor of the second run is the new factor
+of the first up to a positive column scaling, and the new weights absorb what is missing to `c`.
+The all-zero guard takes the same branch in both runs; the solver's answer is pinned down by its
+contract because `Y` is non-singular when the guard does not fire (`hreg`). -/
+theorem C18_scale_cpals_mode_update {D D' : Data α} {S : Services α} {o : NumOps α} {X : List Nat → α} {c : α}
+    (ho : o.Lawful) (hS : SolveContract S) (hc : 0 < c) (hD : DataLaws D X)
+    (hD' : DataLaws D' (fun j => c * X j)) (hs : D'.shape = D.shape) {rank it last n : Nat}
+    (hn : n < D.shape.length) {st st' st1 st1' : State α} (hsim : Sim c D.shape rank st st')
+    (hreg : RegularY o (coef st.UtU D.shape.length rank n) rank)
+    (h : CpAls.modeUpdate D S o rank it last n st = .ok st1)
+    (h' : CpAls.modeUpdate D' S o rank it last n st' = .ok st1') :
+    Sim c D.shape rank st1 st1' :=
+  (modeUpdate_sim ho hS hc hD hD' hs hn hsim hreg h h').1
+
+/-- Related states denote model tensors that differ exactly by the factor `c`:
+`[[weights'; U']] = c · [[weights; U]]` (`Ktensor.get`, at every subscript of the right length). -/
+theorem C18_scale_cpals_tensor {c : α} {s : List Nat} {rank : Nat} {st st' : State α}
+    (h : Sim c s rank st st') (hw : st.weights.length = rank) (j : List Nat) (hj : j.length = s.length) :
+    Ktensor.get ⟨st'.weights, st'.U⟩ j = c * Ktensor.get ⟨st.weights, st.U⟩ j :=
+  h.tensor hw j hj
+
+/-- One pass of the main loop (all mode updates in `dims`, then `iprod`, `M.norm()`,
+`normresidual`, `fit`, `fitchange`, the stop test) maps related states to related states.  In
+particular, after the pass: the fit is THE SAME NUMBER in both runs, the stop test gives the same
+answer, the residual norm scales by `c`, and the model tensor of the second run is `c` times that
+of the first.  (`hnz`: for data whose `norm()` is reported as zero — sum tensors — the code reports
+`‖M‖² − 2⟨X,M⟩` as "fit", which scales by `c²`; that case is excluded.) -/
+theorem C18_scale_cpals_pass {D D' : Data α} {S : Services α} {o : NumOps α} {X : List Nat → α} {c : α}
+    (ho : o.Lawful) (hS : SolveContract S) (hc : 0 < c) (hD : DataLaws D X)
+    (hD' : DataLaws D' (fun j => c * X j)) (hs : D'.shape = D.shape)
+    (hnorm : D'.norm = c * D.norm) (hnz : D.norm ≠ 0) {rank it : Nat} {stoptol : α}
+    {dims : List Nat} (hne : dims ≠ []) (hdims : ∀ n ∈ dims, n < D.shape.length) {st st' st2 st2' : State α}
+    (hsim : Sim c D.shape rank st st') (hreg : RegularSweep D S o rank it (dims.getLastD 0) dims st)
+    (h : iterStep D S o rank stoptol dims it st = .ok st2)
+    (h' : iterStep D' S o rank stoptol dims it st' = .ok st2') :
+    Sim c D.shape rank st2 st2' ∧ st2'.fit = st2.fit ∧ st2'.stop = st2.stop ∧
+    st2'.normresidual = c * st2.normresidual ∧
+    ∀ j, j.length = D.shape.length →
+      Ktensor.get ⟨st2'.weights, st2'.U⟩ j = c * Ktensor.get ⟨st2.weights, st2.U⟩ j := by
+  obtain ⟨hsim2, hw, _⟩ := iterStep_sim ho hS hc hD hD' hs hnorm hnz hne hdims hsim hreg h h'
+  exact ⟨hsim2, hsim2.fit, hsim2.stop, hsim2.normresidual, fun j hj => hsim2.tensor hw j hj⟩
+
+/-- Any number of passes: `for iteration in range(maxiters): pass; if flag == 0: break`, started at
+pass `k` with `fuel` passes left in related states (e.g. the common start, `CpAls.sim_init`).  The
+two runs take the same stop decision after every pass (the relation is re-established pass by pass
+and contains the equality of the fits and of the stop flags), hence execute the same number of
+passes, and they end in related states: same last pass index, same fit, residual scaled by `c`,
+model tensor scaled by `c`.  No final `arrange` here — that is `C18_scale_cpals_run`. -/
+theorem C18_scale_cpals_sweeps {D D' : Data α} {S : Services α} {o : NumOps α} {X : List Nat → α} {c : α}
+    (ho : o.Lawful) (hS : SolveContract S) (hc : 0 < c) (hD : DataLaws D X)
+    (hD' : DataLaws D' (fun j => c * X j)) (hs : D'.shape = D.shape)
+    (hnorm : D'.norm = c * D.norm) (hnz : D.norm ≠ 0) {rank : Nat} {stoptol : α}
+    {dims : List Nat} (hne : dims ≠ []) (hdims : ∀ n ∈ dims, n < D.shape.length)
+    (fuel k : Nat) (hfuel : 0 < fuel) {st st' stF stF' : State α} (hsim : Sim c D.shape rank st st')
+    (hreg : RegularLoop D S o rank stoptol dims fuel k st)
+    (h : loopFrom (iterStep D S o rank stoptol dims) fuel k st = .ok stF)
+    (h' : loopFrom (iterStep D' S o rank stoptol dims) fuel k st' = .ok stF') :
+    Sim c D.shape rank stF stF' ∧ stF'.iteration = stF.iteration ∧ stF'.stop = stF.stop ∧
+    stF'.fit = stF.fit ∧ stF'.normresidual = c * stF.normresidual ∧
+    ∀ j, j.length = D.shape.length →
+      Ktensor.get ⟨stF'.weights, stF'.U⟩ j = c * Ktensor.get ⟨stF.weights, stF.U⟩ j := by
+  obtain ⟨hsimF, hw⟩ := loop_sim ho hS hc hD hD' hs hnorm hnz hne hdims fuel k hsim hreg h h'
+  exact ⟨hsimF, hsimF.iteration, hsimF.stop, hsimF.fit, hsimF.normresidual,
+    fun j hj => hsimF.tensor (hw hfuel) j hj⟩
+
+/-- The final clean-up `M.arrange()` (normalise the columns to 2-norm one, make the weights
+non-negative, sort by decreasing weight — in whatever order the sort leaves equal weights) and
+`M.fixsigns()` (an even number of sign flips per component) do not change the array the Kruskal
+tensor denotes.  So although the two runs may return their components in different orders and with
+different signs, the returned model TENSORS are comparable. -/
+theorem C18_scale_cpals_cleanup {o : NumOps α} (ho : o.Lawful) (fix : Bool) (K : Ktensor α)
+    (h0 : 0 < K.factors.length) (j : List Nat) (hj : j.length = K.factors.length) :
+    (cleanup o fix K).get j = K.get j :=
+  cleanup_get ho fix K h0 j hj
+
+/-- **Whole-run scale equivariance of CP-ALS.**  Let `run D S o P init` (data `X`) and
+`run D' S o P init` (data `c • X`, `c > 0`; same services, options and start) both return.  If
+`norm()` of the data is not zero and every coefficient matrix the first run meets is zero (guard) or
+non-singular, then: both runs stop after the same pass (`iters`), report the same `fit`, the
+residual norm of the second is `c` times that of the first — whether or not the report is
+recomputed from the cleaned-up model (`printitn > 0`) —, the returned model tensor of the second
+run is `c` times that of the first (`Ktensor.get`, after `arrange` and the optional `fixsigns`),
+and `init`, `dimorder`, `optdims` of the output coincide.  The final loop states are related by
+the simulation relation.  (`hnv` only matters for `init = "nvecs"`: the leading eigenvectors of
+`X₍ₙ₎X₍ₙ₎ᵀ` do not change under scaling, `C18_scale_hosvd`.) -/
+theorem C18_scale_cpals_run {D D' : Data α} {S : Services α} {o : NumOps α} {X : List Nat → α} {c : α}
+    (ho : o.Lawful) (hS : SolveContract S) (hc : 0 < c) (hD : DataLaws D X)
+    (hD' : DataLaws D' (fun j => c * X j)) (hs : D'.shape = D.shape)
+    (hnorm : D'.norm = c * D.norm) (hnz : D.norm ≠ 0) {P : Params α} {init : Init α}
+    (hnv : init = .nvecs → D'.nvecs = D.nvecs) (hi : InitOK D P.rank init)
+    (hreg : RegularRun D S o P init) {out out' : Output α}
+    (h : run D S o P init = .ok out) (h' : run D' S o P init = .ok out') :
+    out'.iters = out.iters ∧ out'.fit = out.fit ∧ out'.normresidual = c * out.normresidual ∧
+    (∀ j, j.length = D.shape.length → out'.M.get j = c * out.M.get j) ∧
+    out'.init = out.init ∧ out'.dimorder = out.dimorder ∧ out'.optdims = out.optdims ∧
+    ∃ st st' : State α, Sim c D.shape P.rank st st' ∧
+      out.M = cleanup o P.fixsigns ⟨st.weights, st.U⟩ ∧ out'.M = cleanup o P.fixsigns ⟨st'.weights, st'.U⟩ :=
+  run_scaled ho hS hc hD hD' hs hnorm hnz hnv hi hreg h h'
+
+/-- For rank one the regularity hypothesis of `C18_scale_cpals_run` is no restriction: a `1 × 1`
+coefficient matrix is zero (the guard fires) or non-singular. -/
+theorem C18_scale_cpals_rank_one {o : NumOps α} (ho : o.Lawful) (D : Data α) (S : Services α) (P : Params α)
+    (init : Init α) (hr : P.rank = 1) : RegularRun D S o P init :=
+  regularRun_one ho D S P init hr
+
+end cpals_run
 
 /-! ### relabelling the modes -/
 
@@ -314,6 +451,22 @@ example {α : Type} [Field α] [LinearOrder α] [IsStrictOrderedRing α] :
 -- … and the model computes: weights absorbed into factor 0
 example : redistribute0 (⟨[(3 : Int), 5], [[[1, 0], [0, 1]], [[1, 1]]]⟩ : Ktensor Int)
     = ⟨[1, 1], [[[3, 0], [0, 5]], [[1, 1]]]⟩ := by decide
+-- whole-run scaling of CP-ALS, all hypotheses of `C18_scale_cpals_run` at once on a concrete instance:
+-- ℝ with `Real.sqrt`; data = the 1 × 1 array [[1/2]] and its multiple [[3/2]] (c = 3) behind the
+-- interface `CpAls.data11` (its `mttkrp` / `innerprod` satisfy the laws); rank 1, two passes (pass 0
+-- uses the 2-norm; in pass 1 the `max(·, 1)` floor is active for 1/2 but not for 3/2, so the factors of
+-- the two runs really differ by a column scaling), start all ones, report recomputed, `fixsigns`;
+-- the 1 × 1 solver.  Both runs return, and the theorem applies: same `iters`, same `fit`, tensor times 3.
+example : ∃ out out' : CpAls.Output ℝ,
+    CpAls.run (CpAls.data11 (1 / 2)) CpAls.solve1 CpAls.realNumOps CpAls.params11 (.given CpAls.start11) = .ok out ∧
+    CpAls.run (CpAls.data11 (3 * (1 / 2))) CpAls.solve1 CpAls.realNumOps CpAls.params11 (.given CpAls.start11) = .ok out' ∧
+    out'.iters = out.iters ∧ out'.fit = out.fit ∧ out'.normresidual = 3 * out.normresidual ∧
+    out'.M.get [0, 0] = 3 * out.M.get [0, 0] := by
+  obtain ⟨out, out', hS, hD, hD', hs, hnorm, hnz, hnv, hi, hreg, h, h'⟩ :=
+    CpAls.instance11 CpAls.realNumOps_lawful (1 / 2 : ℝ) 3 (by norm_num)
+  obtain ⟨r1, r2, r3, r4, _⟩ :=
+    C18_scale_cpals_run CpAls.realNumOps_lawful hS (by norm_num) hD hD' hs hnorm hnz hnv hi hreg h h'
+  exact ⟨out, out', h, h', r1, r2, r3, r4 [0, 0] rfl⟩
 -- the interface predicate separates the two kinds of query
 example : (Query.mttkrp ([] : List (Mat Int)) 0).isIface = true ∧ (Query.stored 0 : Query Int).isIface = false := by
   decide
